@@ -90,7 +90,7 @@ theorem updBox_pending_of (s : Sh) (k' : Nat) (f : Box → Box) (k : Nat) (hf : 
 theorem exec_pending (s : Sh) (pc : PC) (k : Nat) : ((exec s pc).1.boxes k).pending = pendAfter s pc k := by
   cases pc with
   | ub k' first upc =>
-    have hs : (exec s (.ub k' first upc)).1 = s.updBox k' (fun b => { b with mb := (Unbounded.exec (s.boxes k').mb upc).1 }) := by
+    have hs : (exec s (.ub k' first upc)).1 = s.updBox k' (fun b => b.ubStep upc) := by
       simp only [exec]
       split <;> rfl
     rw [hs]; exact updBox_pending_of _ _ _ _ (fun _ => rfl)
